@@ -457,6 +457,12 @@ def evaluate_programs(ctx, programs, judges=True):
         for pi, (jres, ords) in enumerate(glue.parallel(judge_program, jargs)):
             for name, ok, detail in jres:
                 ctx.stat("judge " + name + (" ok" if ok else " FAILED"))
+                if not ok and name == "g++ static_assert":
+                    # the property names the operators: a failed operator assertion is a concrete failing input
+                    for mm in list(re.finditer(r"case(\d+) (operator\S)", detail))[:3]:
+                        decl = all_cases[pi][int(mm.group(1))][0]
+                        ctx.report("flags:cpp:operator-not-bitwise", f"generated C++ {mm.group(2)} is not the bitwise operation on the underlying value",
+                                   {"input": {"decls": [decl], "styles": programs[pi]["styles"]}, "idl": render([decl]), "judge": "g++ static_assert", "stderr": detail[-800:]})
                 if not ok:
                     m = re.search(r"case(\d+)", detail)
                     first = all_cases[pi][int(m.group(1))] if m else None
@@ -500,6 +506,6 @@ def run(ctx):
 def replay(ctx, body):
     inp = body["input"]
     before = len(ctx.violations) + sum(ctx.known_hits.values())
-    breaks = evaluate_programs(ctx, [{"decls": inp["decls"], "styles": inp.get("styles", {})}], judges=False)
+    breaks = evaluate_programs(ctx, [{"decls": inp["decls"], "styles": inp.get("styles", {})}], judges=True)
     print(json.dumps({"breaks": breaks[:2], "violations": ctx.violations}, indent=1)[:3000])
     return len(ctx.violations) + sum(ctx.known_hits.values()) == before and not breaks
